@@ -839,3 +839,55 @@ Proof.
   cbv zeta. split; [vm_compute; reflexivity|]. split; [vm_compute; reflexivity|].
   eexists. split; [vm_compute; reflexivity|]. vm_compute. discriminate.
 Qed.
+
+(* ====================================================================================== *)
+(* the wire format (C02 at message level): the PDU of such a message is the concatenation  *)
+(* of the raw values, big endian (byte-swapped for little endian numeric objects), each     *)
+(* zero-padded at the top to whole bytes                                                    *)
+(* ====================================================================================== *)
+Definition wire_bytes (x : fdesc) (raw : Z) : list Z :=
+  let n := Z.to_nat (fbytes x) in
+  if negb (f_hl x) && is_numeric (f_bt x) then rev (to_be n raw) else to_be n raw.
+
+Lemma wire_bytes_canon vv x raw :
+  0 < f_bl x -> 0 <= raw < 2 ^ f_bl x ->
+  raw_of (vv (fname x)) (f_bl x) (f_bt x) (f_en x) (f_hl x) = Ok raw ->
+  value_of_raw raw (f_bl x) (f_bt x) (f_en x) (f_hl x) = Ok (vv (fname x)) ->
+  canon vv x (wire_bytes x raw).
+Proof.
+  intros Hbl Hraw Hr Hv. unfold canon, wire_bytes.
+  destruct (nbytes_pos (f_bl x) 0 Hbl ltac:(lia)) as [Hn1 Hn2]. fold (fbytes x) in Hn1, Hn2.
+  set (n := Z.to_nat (fbytes x)).
+  assert (Hb : 0 <= raw < 256 ^ Z.of_nat n).
+  { rewrite pow256. split; [lia|]. eapply Z.lt_le_trans; [apply Hraw|]. apply Z.pow_le_mono_r; unfold n; lia. }
+  assert (Hbe : be_int (to_be n raw) = raw) by now apply be_int_to_be.
+  destruct (negb (f_hl x) && is_numeric (f_bt x)).
+  - rewrite rev_involutive, Hbe. repeat split; auto; try lia.
+    + rewrite bytes_ok_rev. apply to_be_ok.
+    + rewrite blen_rev. unfold blen. rewrite to_be_length. unfold n. lia.
+  - rewrite Hbe. repeat split; auto; try lia.
+    + apply to_be_ok.
+    + unfold blen. rewrite to_be_length. unfold n. lia.
+Qed.
+
+Theorem flat_wire_format fl vv raws :
+  Forall2 (fun x raw => sane vv x /\ 0 <= raw < 2 ^ f_bl x /\
+                        raw_of (vv (fname x)) (f_bl x) (f_bt x) (f_en x) (f_hl x) = Ok raw /\
+                        value_of_raw raw (f_bl x) (f_bt x) (f_en x) (f_hl x) = Ok (vv (fname x))) fl raws ->
+  NoDup (map fname fl) ->
+  encode_msg (map mkp fl) None (VDict (fvals vv (filter is_value fl))) =
+  Ok (concat (map (fun p => wire_bytes (fst p) (snd p)) (combine fl raws)), false).
+Proof.
+  intros HF ND.
+  assert (HF2 : Forall2 (fun x w => sane vv x /\ canon vv x w) fl
+                        (map (fun p => wire_bytes (fst p) (snd p)) (combine fl raws))).
+  { clear ND. induction HF as [|x raw fl raws (Hs & Hr & Ho & Hv) HF IH]; cbn [combine map]; constructor; [|exact IH].
+    split; [exact Hs|]. cbn [fst snd]. apply wire_bytes_canon; auto. apply Hs. }
+  exact (proj2 (flat_reencode fl vv _ HF2 ND)).
+Qed.
+
+Example wire_example :
+  let fl := [mkF [115] 8 BUint None true BUint (Some (VInt 34)); mkF [112; 50] 12 BUint None false BUint None;
+             mkF [112; 52] 8 BInt (Some Enc2C) true BInt None] in
+  concat (map (fun p => wire_bytes (fst p) (snd p)) (combine fl [34; 2748; 254])) = [34; 188; 10; 254].
+Proof. vm_compute. reflexivity. Qed.
